@@ -48,16 +48,40 @@ static void verif_delete(uint8_t* p) {
 #elif defined(VERIF_NEW_BLOCK)
 /* operator new hands out fixed-size blocks (std::string / std::vector storage): a request above the block size is an
  * assertion failure ("bound"), never silently truncated. Symbolic-size heap objects send CBMC into its array theory. */
-/* opt-in (unit gen_defs=['VERIF_NEW_U64']): the block is allocated as uint64_t[VERIF_NEW_BLOCK/8] instead of bytes. Same
- * memory, but CBMC types the object as an array of words: the pointer/size members of std::string / std::vector stored in
- * it become whole-element reads that symbolic execution constant-folds (measured: Arguments(1 empty token) 200k steps and
- * solver out of memory with byte blocks -> 6k steps, 1 s). Keep blocks <= 64 words (--max-field-sensitivity-array-size). */
+/* opt-in (unit gen_defs=['VERIF_NEW_U64']): the block is allocated as uint64_t[VERIF_NEW_BLOCK/8] instead of bytes (same
+ * memory; CBMC types the object as an array of words, which stays field-sensitive up to 64 words = new_block 512).
+ * opt-in (gen_defs=['VERIF_NEW_U64', 'VERIF_NEW_ZERO']): additionally the block is zero-filled word by word. CBMC's
+ * symbolic execution constant-folds reads from a heap object only when its content is concrete; with zero-filled word
+ * blocks the pointer/size members of std::string / std::vector / the container shims fold and loops over them stop at
+ * their real bound (measured: Arguments(1 token) 200k steps + solver out of memory -> 6k steps, 1 s). The price is part of
+ * the claim of every unit that uses it: behaviour that depends on READING UNINITIALISED operator-new memory is not
+ * explored (the model shows zeros). State it in spec.ASSUMPTIONS. */
 #ifdef VERIF_NEW_U64
-#define VERIF_NEW_MALLOC() ((uint8_t*)malloc(sizeof(uint64_t) * ((VERIF_NEW_BLOCK + 7) / 8)))
+#define VERIF_NEW_WORDS ((VERIF_NEW_BLOCK + 7) / 8)
+#define VERIF_NEW_MALLOC() ((uint8_t*)malloc(sizeof(uint64_t) * VERIF_NEW_WORDS))
 #else
 #define VERIF_NEW_MALLOC() malloc(VERIF_NEW_BLOCK)
 #endif
-static uint8_t* verif_new(uint64_t n) { __CPROVER_assert(n <= VERIF_NEW_BLOCK, "BOUND: operator new request exceeds VERIF_NEW_BLOCK"); __CPROVER_assume(n <= VERIF_NEW_BLOCK); uint8_t* p = VERIF_NEW_MALLOC(); __CPROVER_assume(p != 0); return p; }
+#if defined(VERIF_NEW_U64) && defined(VERIF_NEW_ZERO)
+#if VERIF_NEW_BLOCK > 512
+#error "VERIF_NEW_ZERO supports new_block <= 512"
+#endif
+/* straight-line (no loop: --unwind applies to every loop) */
+#define VERIF_Z1(i) if ((i) < VERIF_NEW_WORDS) w[(i)] = 0;
+#define VERIF_Z8(i) VERIF_Z1(i) VERIF_Z1(i + 1) VERIF_Z1(i + 2) VERIF_Z1(i + 3) VERIF_Z1(i + 4) VERIF_Z1(i + 5) VERIF_Z1(i + 6) VERIF_Z1(i + 7)
+static void verif_new_fill(uint8_t* p) { uint64_t* w = (uint64_t*)p; VERIF_Z8(0) VERIF_Z8(8) VERIF_Z8(16) VERIF_Z8(24) VERIF_Z8(32) VERIF_Z8(40) VERIF_Z8(48) VERIF_Z8(56) }
+#else
+#define verif_new_fill(p) ((void)0)
+#endif
+/* opt-in (unit gen_defs=['VERIF_NEW_BLOCK_SMALL=k']): two size classes. A request of at most k bytes gets a k-byte block,
+ * a larger one the VERIF_NEW_BLOCK block (both malloc sizes are constants). For units where a few objects are huge (the
+ * 16 KiB std::string blocks of read_all) and all others tiny: without it every vector/string storage is a huge array. */
+#ifdef VERIF_NEW_BLOCK_SMALL
+#define VERIF_NEW_SMALL(n) if ((n) <= VERIF_NEW_BLOCK_SMALL) { uint8_t* q = malloc(VERIF_NEW_BLOCK_SMALL); __CPROVER_assume(q != 0); return q; }
+#else
+#define VERIF_NEW_SMALL(n)
+#endif
+static uint8_t* verif_new(uint64_t n) { __CPROVER_assert(n <= VERIF_NEW_BLOCK, "BOUND: operator new request exceeds VERIF_NEW_BLOCK"); __CPROVER_assume(n <= VERIF_NEW_BLOCK); VERIF_NEW_SMALL(n) uint8_t* p = VERIF_NEW_MALLOC(); __CPROVER_assume(p != 0); verif_new_fill(p); return p; }
 #define verif_delete(p) free(p)
 #else
 static uint8_t* verif_new(uint64_t n) { uint8_t* p = malloc(n); __CPROVER_assume(p != 0); return p; }
